@@ -464,7 +464,23 @@ class Interp:
         return self.conv(e.value)
 
     def ev_Name(self, e):
-        return self.conv(self.env.lookup(e.id))
+        try:
+            return self.conv(self.env.lookup(e.id))
+        except Unsupported:
+            # a local of the function under verification that no statement on this path has bound: CPython raises
+            # UnboundLocalError here.  Only claimed for names that are never assigned inside a loop of the function
+            # (a loop cut leaves such names unbound in THIS interpreter although an iteration may have bound them).
+            top = getattr(self, 'top_node', None)
+            if top is not None and not self.inlining:
+                from . import source
+                if e.id in source.assigned_names(top.body):
+                    loops = [n for n in ast.walk(top) if isinstance(n, (ast.For, ast.While))]
+                    in_loop = set()
+                    for l in loops:
+                        in_loop |= source.assigned_names(l.body) | source.assigned_names([l])
+                    if e.id not in in_loop:
+                        raise PyRaise(ExcVal(UnboundLocalError, tag='unbound-local:' + e.id))
+            raise
 
     def ev_Tuple(self, e):
         return tuple(self.ev(x) for x in e.elts)
@@ -971,6 +987,12 @@ class Interp:
         v = self.ev(e.value) if e.value is not None else None
         self.st.cur_line = e.lineno
         k = self.yield_ord[id(e)]
+        if self.st.ghost.get('closing_at') is not None:
+            # the consumer closed this generator at an earlier yield (GeneratorExit was raised there); yielding again means
+            # the body swallowed it: CPython turns that into RuntimeError('generator ignored GeneratorExit') in the consumer
+            self.st.oblige('yield%d:no-yield-after-GeneratorExit(the close of an abandoned generator must not be swallowed)' % k,
+                           BoolVal(False), tags=('C13', 'C07'))
+            raise PathEnd('generator ignored GeneratorExit')
         return self.fcontract.at_yield(self, k, v, e)
 
     # ------------------------------------------------------------------ calls
